@@ -58,7 +58,13 @@ def tails(rng, other):
     t = [('empty', b''), ('00', b'\x00'), ('0000', b'\x00\x00'), ('00000000', b'\x00' * 4), ('another', other),
          ('garbage', bytes(rng.getrandbits(8) for _ in range(rng.randint(1, 9)))), ('ff', b'\xff' * rng.randint(1, 5)),
          ('tag-only', bytes([rng.choice([0x30, 0x02, 0x04, 0xa0, 0x24])]))]
-    return rng.sample(t, 3)
+    out = rng.sample(t, 3)
+    if rng.random() < 0.25:
+        # a tail around and beyond the read-ahead buffer size (whatever hands the remainder over must hand over all
+        # of it)
+        n = rng.choice([8191, 8192, 8193, 16384, 16385, 30000])
+        out.append(('long', bytes([rng.getrandbits(8)]) * 7 + bytes(rng.getrandbits(8) for _ in range(64)) * (n // 64) + b'\x01' * (n % 64)))
+    return out
 
 
 def check_oneshot(res, bt, kind, codec, e, tailkind, t):
